@@ -41,6 +41,12 @@ def jobs(ctx):
         out.append((base(strat, creates), (1, 1)))
       if ctx.thorough:
         out.append((dict(base(strat, creates), all_writer_lines=True), (1, 1)))
+  # the instrumentation tick of the reactor thread reports and clears the counters while the writer thread counts
+  # dropped creates and errors (create limit 1/min: the second new metric of a pass is a dropped create)
+  for strat in ('sorted',) if not ctx.thorough else ('sorted', 'max'):
+    rep = dict(base(strat, 1), reactor=[('store', 'b', 1, 2.0), ('store', 'c', 1, 4.0), ('report',), ('store', 'a', 2, 3.0)])
+    out.append((rep, (ctx.pick(1, 2), 0)))
+    out.append((dict(rep, reactor=[('store', 'b', 1, 2.0), ('report',), ('store', 'c', 1, 4.0), ('report',)]), (1, 1)))
   if not ctx.thorough:
     for strat in ('max', 'naive', 'random'):
       out.append((base(strat, INF), (0, 1) if strat != 'random' else (0, 2)))
